@@ -44,6 +44,7 @@ type (
 		Forall bool
 		Vars   []Binder
 		Body   Expr
+		Pats   []Expr // explicit trigger terms: forall x T {f(x), g(x)} :: body
 	}
 	ECond struct{ C, A, B Expr }
 )
@@ -103,7 +104,7 @@ type lexer struct {
 }
 
 var ops = []string{"<==>", "==>", "&&", "||", "==", "!=", "<=", ">=", "<<", ">>", "&^", "::",
-	"<", ">", "+", "-", "*", "/", "%", "&", "|", "^", "!", "(", ")", "[", "]", ".", ",", ":", "?"}
+	"<", ">", "+", "-", "*", "/", "%", "&", "|", "^", "!", "(", ")", "[", "]", ".", ",", ":", "?", "{", "}"}
 
 func lex(s string) ([]tok, error) {
 	var out []tok
@@ -262,6 +263,16 @@ func (p *lexer) parse(minPrec int) Expr {
 				continue
 			}
 			break
+		}
+		if p.isOp("{") {
+			p.next()
+			for !p.isOp("}") {
+				q.Pats = append(q.Pats, p.parse(0))
+				if p.isOp(",") {
+					p.next()
+				}
+			}
+			p.expect("}")
 		}
 		p.expect("::")
 		q.Body = p.parse(0)
